@@ -397,6 +397,15 @@ theorem sends_ge_remote_min (post : List Op) (t : State) (hJ : J t) :
     · intro o ho i hi
       exact Int.le_trans h1 (ih _ h2 o ho i hi)
 
+/- Desire changes between ops. In the model the controller's desired poll interval is not part of the source state: it is
+   an argument `desired` of each `timer` op (`handleTimer s now desired …` = what `current_poll_interval()` reads at that
+   timer), and `handleIncoming` has NO desire argument — the RATE arm uses `last_poll_interval`, the interval of the poll
+   being answered. `never_faster_after_rate`, `remote_min_monotone`, `sends_ge_remote_min` quantify over an arbitrary op
+   list `post`, i.e. over arbitrary, independently chosen desires at every later timer, and nothing the controller does
+   between a poll and its answer can enter `handleIncoming`. The stream op `desire p=…` (the recording controller's
+   desired interval changes between two ops) is therefore a no-op of the model; seed C09-f (RATE bounded by
+   `current_poll_interval()` at arrival) is a code path that READS the desire where the model has no such input. -/
+
 /-- **C09.never_faster_after_rate** — history form of "after a valid RATE answer a source never polls faster than
     it just did": if a source (in a state reachable from a new source, `J`) that polled with exponent `last_poll`
     receives a valid RATE answer, then EVERY request it sends afterwards — whatever else arrives in between and
